@@ -519,7 +519,7 @@ class _GenerateRenderMethod:
         if has_loop:
             self.printer.writeline("loop = __M_loop = runtime.LoopStack()")
 
-        for ident in to_write:
+        for ident in sorted(to_write):
             if ident in comp_idents:
                 comp = comp_idents[ident]
                 if comp.is_block:
